@@ -301,6 +301,18 @@ where
                 json!({"len": n, "is_empty": self.is_empty(), "get": by_get, "iter": by_iter, "cloned_iter": half}),
             );
         }
+        // positional iteration: nth / skip / step_by / last / count see exactly this item, nothing beyond it
+        let past_end = self.iter().nth(n).is_some() || self.iter().skip(n).next().is_some() || self.iter().nth(n + 1).is_some();
+        let nth_ok = (0..n).all(|k| self.iter().nth(k).map(|x| x.render()) == Some(by_get[k].clone()));
+        let stepped: Vec<Value> = self.iter().step_by(2).map(|x| x.render()).collect();
+        let stepped_want: Vec<Value> = by_get.iter().step_by(2).cloned().collect();
+        let last = self.iter().last().map(|x| x.render());
+        if past_end || !nth_ok || stepped != stepped_want || self.iter().count() != n || last != by_get.last().cloned() {
+            return inconsistent(
+                "ReadSlice positional iteration (nth/skip/step_by/last/count) disagrees with get",
+                json!({"len": n, "get": by_get, "past_end": past_end, "nth_ok": nth_ok, "stepped": stepped}),
+            );
+        }
         Value::Array(by_get)
     }
 }
@@ -317,6 +329,11 @@ where
         let hint = it.size_hint();
         let exact = ExactSizeIterator::len(&it);
         let by_iter: Vec<Value> = it.map(|x| x.render()).collect();
+        let past_end = self.into_iter().nth(n).is_some() || self.into_iter().skip(n).next().is_some();
+        let nth_ok = (0..n).all(|k| self.into_iter().nth(k).map(|x| x.render()) == Some(by_get[k].clone()));
+        if past_end || !nth_ok {
+            return inconsistent("ReadColumns positional iteration (nth/skip) disagrees with get", json!({"len": n, "get": by_get, "past_end": past_end}));
+        }
         if by_get != by_iter || self.is_empty() != (n == 0) || hint.0 > n || hint.1.map(|h| h < n).unwrap_or(false) || exact != n {
             return inconsistent(
                 "ReadColumns len/is_empty/get/iter disagree",
